@@ -492,7 +492,7 @@ def binary_case(chk, pr, xvc, ents, idx, reps, hooked):
                     exp = sorted(p[1:] for p in model_all if p.startswith('/' + d + '/') and p[1:] not in git_tracked)
                     if rec != exp: tie.append((f'file-track {d}/', rec, exp))
                 if outs and not set(x for x in rec if x in files) <= set(outs[0]) | git_tracked:
-                    msgs.append(f'`xvc file track {d}/` recorded {sorted(set(rec) - set(outs[0]))}, which `xvc file list` did not show')
+                    msgs.append(f'`xvc file track {d}/` recorded {sorted(set(x for x in rec if x in files) - set(outs[0]))}, which `xvc file list` did not show')
         chk.count('binary:repositories')
     finally:
         sb.cleanup()
